@@ -84,7 +84,7 @@ func main() {
 		}
 	}
 	files, names = kf, kn
-	info := &types.Info{Types: map[ast.Expr]types.TypeAndValue{}}
+	info := &types.Info{Types: map[ast.Expr]types.TypeAndValue{}, Uses: map[*ast.Ident]types.Object{}}
 	var conf types.Config
 	conf.Importer = importer.ForCompiler(fset, "source", nil)
 	conf.Error = func(err error) {}
@@ -97,6 +97,7 @@ func main() {
 	os.MkdirAll(*out, 0o755)
 	overlay := map[string]string{}
 	var sites []string
+	var clockSites []string
 	for i, f := range files {
 		changed := false
 		var rewrite func(n ast.Node) bool
@@ -169,6 +170,37 @@ func main() {
 			return true
 		}
 		ast.Inspect(f, rewrite)
+		// the wall clock: time.Now() / time.Since(t) become the simulator's clock
+		ast.Inspect(f, func(n ast.Node) bool {
+			call, ok := n.(*ast.CallExpr)
+			if !ok {
+				return true
+			}
+			sel, ok := call.Fun.(*ast.SelectorExpr)
+			if !ok {
+				return true
+			}
+			id, ok := sel.X.(*ast.Ident)
+			if !ok {
+				return true
+			}
+			pn, ok := info.Uses[id].(*types.PkgName)
+			if !ok || pn.Imported().Path() != "time" {
+				return true
+			}
+			where := fmt.Sprintf("%s:%d", names[i], fset.Position(call.Pos()).Line)
+			switch sel.Sel.Name {
+			case "Now":
+				call.Fun = &ast.Ident{Name: "verifNow"}
+				changed = true
+				clockSites = append(clockSites, where)
+			case "Since":
+				call.Fun = &ast.Ident{Name: "verifSince"}
+				changed = true
+				clockSites = append(clockSites, where)
+			}
+			return true
+		})
 		if !changed {
 			continue
 		}
@@ -196,6 +228,7 @@ func main() {
 		fail(err)
 	}
 	fmt.Printf("maprewrite: %d range-over-map sites in %s: %s\n", len(sites), dir, strings.Join(sites, " "))
+	fmt.Printf("maprewrite: %d wall-clock sites: %s\n", len(clockSites), strings.Join(clockSites, " "))
 }
 
 func isBlank(e ast.Expr) bool {
@@ -235,6 +268,7 @@ import (
 	"strconv"
 	"strings"
 	"sync"
+	"time"
 )
 
 // verifMap is the simulator's control over map iteration order.
@@ -244,6 +278,8 @@ var verifMap struct {
 	seed  uint64
 	calls uint64
 	stats map[string][2]int // site -> {iterations, iterations over >= 2 entries}
+	clock      time.Duration
+	clockCalls uint64
 }
 
 func init() {
@@ -259,6 +295,7 @@ func init() {
 func VerifSetMapOrder(mode string, seed uint64) {
 	verifMap.mu.Lock()
 	verifMap.mode, verifMap.seed, verifMap.calls = mode, seed, 0
+	verifMap.clock, verifMap.clockCalls = 0, 0
 	verifMap.mu.Unlock()
 }
 
@@ -270,6 +307,28 @@ func VerifMapStats() map[string][2]int {
 	verifMap.stats = nil
 	return s
 }
+
+// verifNow is the simulator's wall clock for this package: frozen in mode
+// "sorted", jumping a second per reading in mode "reverse", by a seeded amount
+// otherwise; the real clock when no mode is set.
+func verifNow() time.Time {
+	verifMap.mu.Lock()
+	defer verifMap.mu.Unlock()
+	if verifMap.mode == "" {
+		return time.Now()
+	}
+	verifMap.clockCalls++
+	switch {
+	case verifMap.mode == "sorted":
+	case verifMap.mode == "reverse":
+		verifMap.clock += time.Second
+	default:
+		verifMap.clock += time.Duration(verifMix(verifMap.seed^verifMix(verifMap.clockCalls))%uint64(400*time.Millisecond))
+	}
+	return time.Date(2026, 1, 1, 0, 0, 0, 0, time.UTC).Add(verifMap.clock)
+}
+
+func verifSince(t time.Time) time.Duration { return verifNow().Sub(t) }
 
 type verifIterT[K comparable, V any] struct {
 	tails int
